@@ -123,6 +123,13 @@ Relabel ==
 Enbw ==
     LET e == Ev IN Check("C06:enbw_is_fs_S2_over_S12", Near(e.enbwq, e.enbwx, 4))
 
+(* a bin of the full analysis against the reference estimator called directly with that bin's own plan entry *)
+RefBin ==
+    LET e == Ev IN
+    /\ Check("C05:bin_is_the_reference_estimate_for_its_own_plan_entry", \A i \in 1..5 : Near(e.q[i], e.x[i], 4))
+    /\ Check("C05:stored_window_sums_are_those_of_the_configured_window", Near(e.s12, e.xs12, 2) /\ Near(e.s2, e.xs2, 2))
+    /\ Check("C05:K_navg_equal_number_of_starts", e.K = e.nD /\ e.navg = e.nD)
+
 (* Kaiser analyses with different side-lobe levels run one after the other in the same process *)
 WinSum ==
     LET e == Ev IN
@@ -160,6 +167,7 @@ Step ==
          [] Ev.t = "relabel" -> Relabel
          [] Ev.t = "tiny" -> Tiny
          [] Ev.t = "enbw" -> Enbw
+         [] Ev.t = "refbin" -> RefBin
          [] Ev.t = "winsum" -> WinSum
          [] Ev.t = "sine" -> Sine
          [] Ev.t = "gain" -> Gain
